@@ -1,6 +1,8 @@
 import SSLemmas.ExcTable
 import SSLemmas.ExcTableCPython
 import SSLemmas.ExcTableBisect
+import SSModel.Gen.Consts
+import SSLemmas.Localsplus
 /-!
 # C01 — contexts of a suspended frame: the table half
 
@@ -162,3 +164,27 @@ example : (parseTable C01.exTable).length = 6 := by decide
 example : disjointB (parseTable C01.exTable) = true ∧ forwardB (parseTable C01.exTable) = true := by decide
 example : walk (parseTable C01.exTable) 12 = some [⟨92, 3⟩, ⟨74, 1⟩, ⟨68, 4⟩, ⟨50, 2⟩] := by decide
 example : encodeTable [⟨3, 3, 37, 1, true⟩, ⟨6, 1, 25, 2, true⟩] = [131, 3, 37, 3, 134, 1, 25, 5] := by decide
+
+/-! ### where the value stack starts: the number of localsplus slots (seeded changes C01-m8, C07-m7) -/
+
+/-- What the model takes from the source, re-read on every run: the slot count `inspect_frame` uses. -/
+theorem C01_nlocalsplus_source :
+    SS.Gen.nlocalsplusExpr = "len(set(co.co_varnames + co.co_cellvars)) + len(co.co_freevars)" := by decide
+
+/-- **C01_nlocalsplus_layout**: that expression is CPython's layout — one slot per local, one per cell that is not also a
+local, one per free variable (whether or not its name is also a local's) — for any code object whose `co_varnames` and
+`co_cellvars` are duplicate-free, as the compiler makes them. -/
+theorem C01_nlocalsplus_layout (varnames cellvars freevars : List String) (hv : varnames.Nodup) (hc : cellvars.Nodup) :
+    SS.Localsplus.slotsCode varnames cellvars freevars = SS.Localsplus.slotsLayout varnames cellvars freevars := by
+  unfold SS.Localsplus.slotsCode SS.Localsplus.slotsLayout SS.Localsplus.distinct
+  rw [SS.Localsplus.dedup_append_nodup varnames cellvars hv hc]
+
+/-- Two plausible rewrites are wrong on shapes CPython 3.12 produces: merging free variables into the set (a free variable
+re-used as the variable of an inlined comprehension) and discounting only closed-over *arguments* (a non-argument local that
+is also a cell). -/
+theorem C01_nlocalsplus_rewrites_wrong :
+    SS.Localsplus.slotsMergedAll ["a", "rows", "key", "both"] [] ["key"] ≠ SS.Localsplus.slotsLayout ["a", "rows", "key", "both"] [] ["key"]
+    ∧ SS.Localsplus.slotsArgsOnly ["ms", "m", "shared"] ["m", "ms"] [] 1 ≠ SS.Localsplus.slotsLayout ["ms", "m", "shared"] ["m", "ms"] [] := by
+  decide
+
+example : SS.Localsplus.slotsCode ["a", "b", "rows", "key", "both", "g"] ["a"] ["key"] = 7 := by decide
